@@ -10,7 +10,7 @@ ids="$@"; [ -z "$ids" ] && ids=$(ls "$src" | grep '^C[0-9][0-9]-')
 props_of() {
   python3 - "$1" <<'PY'
 import re,sys
-M=[('io/',"C01 C04 C05 C06 C02 C03 C07 C08"),('lang/value/',"C02 C20 C04 C03"),('lang/pack/udp/',"C07"),('lang/pack/',"C03 C04 C05 C16 C13 C08"),
+M=[('io/',"C01 C04 C05 C06"),('lang/value/',"C02 C20 C04 C03"),('lang/pack/udp/',"C07"),('lang/pack/',"C03 C04 C05 C16 C13 C08"),
 ('lang/step/',"C08 C04"),('lang/service/',"C08 C04"),('net/',"C05 C06"),('util/hmap/',"C02 C09 C10 C12 C17"),('util/list/',"C10 C11 C13"),
 ('util/queue/',"C06 C10 C11 C16"),('util/hll/',"C14"),('util/hash/',"C15 C05 C03"),('util/hexa32/',"C15"),('util/bitutil/',"C15"),('util/iputil/',"C15"),
 ('util/compressutil/',"C16 C03"),('logsink/',"C16"),('logger/',"C17"),('config/',"C18"),('util/dateutil/',"C17 C19"),('util/stringutil/',"C07 C15"),('util/paramtext/',"C07"),('util/compare/',"C20")]
